@@ -17,6 +17,7 @@ done
 for d in $HERE/seeded/*/; do
   n=$(basename $d); prop=$(python3 -c "import json;print(json.load(open('$d/meta.json'))['property'].split()[0])")
   if [ -n "$ONLY" ] && ! echo " $ONLY " | grep -q " $n "; then continue; fi
+  if grep -q '"neutralised_by"' $d/meta.json; then echo "$n $prop :: skipped (neutralised by a later repair of /repo: see meta.json)"; continue; fi
   git -C $R checkout -q -- . ; git -C $R apply $d/patch.diff || { echo "$n: patch does not apply"; continue; }
   for sd in $seeds; do
     out=$(VERIF_SEED=$sd ./check $prop 2>&1 | grep -E "VIOLATION|Traceback" | sed 's/replay=.*replays\//replay=/' | cut -c1-120 | tail -1)
